@@ -92,8 +92,11 @@ pub fn gen_workload(sub: u64) -> Workload {
     .to_string();
     let early = rng.chance(1, 3) && kind != "zreal";
     // line-oriented modes only: every output line names its file
-    let mut flags: Vec<String> = match rng.below(3) {
+    let mut flags: Vec<String> = match rng.below(4) {
         0 => vec!["-c".into()],
+        // results grouped under a heading per file (compared block by block): a failing command
+        // must leave nothing behind that changes how the next file is printed
+        1 => vec!["-n".into(), "--heading".into()],
         _ => vec!["-n".into(), "--no-heading".into()],
     };
     if early {
@@ -419,8 +422,58 @@ pub fn run_workload(sub: u64, acc: &mut Acc, ctx: &Ctx, _thorough: bool) {
         let is_failing = |l: &[u8]| failing.iter().any(|p| of(l, p));
         let exp_other: Vec<&[u8]> = lines(&shadow_out.stdout).into_iter().filter(|l| !is_failing(l)).collect();
         let got_other: Vec<&[u8]> = lines(&got.stdout).into_iter().filter(|l| !is_failing(l)).collect();
-        let mut ok = exp_other == got_other;
-        for p in &failing {
+        let heading = w.flags.iter().any(|f| f == "--heading");
+        let mut ok = heading || exp_other == got_other;
+        if heading {
+            // blocks: "w/<path>" heading, then its numbered lines; an empty line between blocks
+            let parse = |o: &[u8]| -> Option<Vec<(Vec<u8>, Vec<Vec<u8>>)>> {
+                let mut v: Vec<(Vec<u8>, Vec<Vec<u8>>)> = vec![];
+                let mut fresh = true;
+                for l in lines(o) {
+                    if l.is_empty() {
+                        if fresh {
+                            return None;
+                        }
+                        fresh = true;
+                    } else if fresh {
+                        if !l.starts_with(b"w/") {
+                            return None;
+                        }
+                        v.push((l.to_vec(), vec![]));
+                        fresh = false;
+                    } else {
+                        v.last_mut()?.1.push(l.to_vec());
+                    }
+                }
+                if fresh && !v.is_empty() {
+                    return None;
+                }
+                Some(v)
+            };
+            match (parse(&shadow_out.stdout), parse(&got.stdout)) {
+                (Some(exp), Some(gb)) => {
+                    let is_f = |h: &[u8]| failing.iter().any(|p| h == format!("w/{p}").as_bytes());
+                    // the blocks of the files whose command does not fail: all there, in order, unchanged
+                    let e2: Vec<&(Vec<u8>, Vec<Vec<u8>>)> = exp.iter().filter(|b| !is_f(&b.0)).collect();
+                    let g2: Vec<&(Vec<u8>, Vec<Vec<u8>>)> = gb.iter().filter(|b| !is_f(&b.0)).collect();
+                    ok = e2 == g2;
+                    // a failing one contributes a prefix of its block, at its place
+                    for b in gb.iter().filter(|b| is_f(&b.0)) {
+                        match exp.iter().find(|e| e.0 == b.0) {
+                            Some(e) if b.1.len() <= e.1.len() && b.1[..] == e.1[..b.1.len()] && !b.1.is_empty() => {}
+                            _ => ok = false,
+                        }
+                    }
+                    let order = |v: &Vec<(Vec<u8>, Vec<Vec<u8>>)>| v.iter().map(|b| b.0.clone()).collect::<Vec<_>>();
+                    let (eo, go) = (order(&exp), order(&gb));
+                    if !go.iter().all(|h| eo.contains(h)) || go.windows(2).any(|w| eo.iter().position(|h| h == &w[0]) >= eo.iter().position(|h| h == &w[1])) {
+                        ok = false;
+                    }
+                }
+                _ => ok = false,
+            }
+        }
+        for p in failing.iter().filter(|_| !heading) {
             let e: Vec<&[u8]> = lines(&shadow_out.stdout).into_iter().filter(|l| of(l, p)).collect();
             let g: Vec<&[u8]> = lines(&got.stdout).into_iter().filter(|l| of(l, p)).collect();
             if g.len() > e.len() || g[..] != e[..g.len()] {
